@@ -238,11 +238,11 @@ def case_einsum(ctx, rng):
 
 
 def run(ctx):
-    for _, rng in ctx.cases("tensordot", ctx.n(4200, 200000)):
+    for _, rng in ctx.cases("tensordot", ctx.budget(200000, 4000000)):
         ctx.run_case(case_tensordot, ctx, rng)
-    for _, rng in ctx.cases("matmul", ctx.n(600, 20000)):
+    for _, rng in ctx.cases("matmul", ctx.budget(30000, 600000)):
         ctx.run_case(case_matmul, ctx, rng)
-    for _, rng in ctx.cases("trace", ctx.n(300, 10000)):
+    for _, rng in ctx.cases("trace", ctx.budget(15000, 300000)):
         ctx.run_case(case_trace, ctx, rng)
-    for _, rng in ctx.cases("einsum", ctx.n(700, 25000)):
+    for _, rng in ctx.cases("einsum", ctx.budget(35000, 700000)):
         ctx.run_case(case_einsum, ctx, rng)
